@@ -272,16 +272,13 @@ def d5_9(ctx):
     """Template attributes 4, 5, 2, 1 are requested and decoded as count + four (attr, status, value) groups with the widths of those attributes, in that order."""
     sp = ctx.spec("logix_symbol")["template_attributes"]
     lx = _lx(ctx)
-    fn = lx.methods["_get_structure_makeup"]
-    attrs = [n for n in walk(fn) if isinstance(n, ast.Assign) and atom_name(n.targets[0]) == "attrs" and isinstance(n.value, ast.Tuple)]
-    ids = []
-    if attrs:
-        for e in attrs[0].value.elts:
-            v = ctx.folder.eval(e, lx.module)
-            ids.append(int.from_bytes(v, "little") if isinstance(v, bytes) and len(v) == 2 else None)
+    # the request (count + attributes 4, 5, 2, 1 by Get Attribute List on the template object) and the copy of each decoded group to the
+    # key the consumers read: decided by folding `_get_structure_makeup` together with `_parse_structure_makeup_attributes` on witness
+    # replies of the decoded shape (D5.19) - an earlier form read the `attrs` tuple and the source text of four assignments
+    from .driver import d5_19
+
+    d5_19(ctx)
     want_ids = ctx.spec("helpers")["structure_makeup"]["attributes_requested"]
-    ok = bool(ids) and ids[0] == len(ids) - 1 and ids[1:] == want_ids
-    ctx.check(ok, ckey(lx.key + "._get_structure_makeup", "request"), attrs[0] if attrs else fn, f"requests count {len(want_ids)} + attributes {want_ids}", f"template attribute request is {ids}; expected count + {want_ids}", got=ids)
     # decoder
     mod = ctx.model.module(CT)
     s = mod.symbols.get("StructTemplateAttributes")
@@ -305,13 +302,6 @@ def d5_9(ctx):
             wt = sp[str(aid)][1]
             ok = ok and name == key and isinstance(inner, list) and len(inner) == 3 and inner[0][1] == "UINT" and inner[1][1] == "UINT" and inner[2][1] == wt
     ctx.check(ok, f"{CT}:StructTemplateAttributes", s.node if s is not None else mod.tree, "count + (attr UINT, status UINT, value) x4 with value widths UDINT, UDINT, UINT, UINT in request order", f"StructTemplateAttributes {members} does not decode the requested attributes {want_ids} in order with their widths", members=str(members))
-    pm = ctx.model.func(f"{LX}:_parse_structure_makeup_attributes")
-    got = {}
-    for n in walk(pm.node):
-        if isinstance(n, ast.Assign) and isinstance(n.targets[0], ast.Subscript) and atom_name(n.targets[0].value) == "structure" and isinstance(n.targets[0].slice, ast.Constant):
-            got[n.targets[0].slice.value] = src(n.value).replace('"', "'")
-    want = {"object_definition_size": "_struct['object_definition_size']['size']", "structure_size": "_struct['structure_size']['size']", "member_count": "_struct['member_count']['count']", "structure_handle": "_struct['structure_handle']['handle']"}
-    ctx.check({k: v for k, v in got.items() if k != "error"} == want, ckey(pm, "copy"), pm.node, "each decoded group is copied to the key the consumers read", f"template attributes are copied as {got}", got=got)
     used = {"object_definition_size": "_get_data_type", "structure_size": "_parse_template_data", "member_count": "_parse_template_data", "structure_handle": "_get_structure_makeup"}
     for k, m in used.items():
         ok = any(isinstance(n, ast.Subscript) and isinstance(n.slice, ast.Constant) and n.slice.value == k for n in walk(lx.methods[m]))
